@@ -140,8 +140,16 @@ func (dcd *DeadCodeDetector) Detect() *DeadCodeResult {
 	}
 
 	// Sort findings by line number for consistent output
+	// (ties are broken by end line and block ID so that the order does not
+	// depend on the iteration order of the block map)
 	sort.Slice(result.Findings, func(i, j int) bool {
-		return result.Findings[i].StartLine < result.Findings[j].StartLine
+		if result.Findings[i].StartLine != result.Findings[j].StartLine {
+			return result.Findings[i].StartLine < result.Findings[j].StartLine
+		}
+		if result.Findings[i].EndLine != result.Findings[j].EndLine {
+			return result.Findings[i].EndLine < result.Findings[j].EndLine
+		}
+		return result.Findings[i].BlockID < result.Findings[j].BlockID
 	})
 
 	result.AnalysisTime = time.Since(startTime)
@@ -164,7 +172,15 @@ func DetectInFunctionWithFilePath(cfg *CFG, filePath string) *DeadCodeResult {
 func DetectInFile(cfgs map[string]*CFG, filePath string) []*DeadCodeResult {
 	var results []*DeadCodeResult
 
-	for functionName, cfg := range cfgs {
+	// Visit the functions in name order so that the result order is stable
+	functionNames := make([]string, 0, len(cfgs))
+	for functionName := range cfgs {
+		functionNames = append(functionNames, functionName)
+	}
+	sort.Strings(functionNames)
+
+	for _, functionName := range functionNames {
+		cfg := cfgs[functionName]
 		// Skip the main module CFG for now, focus on functions
 		if functionName == "__main__" {
 			continue
@@ -240,6 +256,16 @@ func (dcd *DeadCodeDetector) findTerminatorInPredecessors(block *BasicBlock) (De
 	// This handles cases where CFG edges might not be perfectly set up
 	blockStartLine := dcd.getBlockStartLine(block)
 
+	// Several blocks may qualify; take the closest one (ties broken by block
+	// ID) so that the reported reason does not depend on map iteration order.
+	var closest *BasicBlock
+	closer := func(a, b *BasicBlock) bool {
+		if dcd.getBlockEndLine(a) != dcd.getBlockEndLine(b) {
+			return dcd.getBlockEndLine(a) > dcd.getBlockEndLine(b)
+		}
+		return a.ID < b.ID
+	}
+
 	for _, otherBlock := range dcd.cfg.Blocks {
 		if otherBlock == nil || otherBlock == block {
 			continue
@@ -249,19 +275,16 @@ func (dcd *DeadCodeDetector) findTerminatorInPredecessors(block *BasicBlock) (De
 
 		// Check if the other block ends before this block starts (sequential in source)
 		if otherEndLine < blockStartLine && (blockStartLine-otherEndLine) <= 5 {
-			if dcd.blockContainsReturn(otherBlock) {
-				return ReasonUnreachableAfterReturn, SeverityLevelCritical
+			if dcd.blockTerminatorReason(otherBlock) == "" {
+				continue
 			}
-			if dcd.blockContainsBreak(otherBlock) {
-				return ReasonUnreachableAfterBreak, SeverityLevelCritical
-			}
-			if dcd.blockContainsContinue(otherBlock) {
-				return ReasonUnreachableAfterContinue, SeverityLevelCritical
-			}
-			if dcd.blockContainsRaise(otherBlock) {
-				return ReasonUnreachableAfterRaise, SeverityLevelCritical
+			if closest == nil || closer(otherBlock, closest) {
+				closest = otherBlock
 			}
 		}
+	}
+	if closest != nil {
+		return dcd.blockTerminatorReason(closest), SeverityLevelCritical
 	}
 
 	// Secondary check: use CFG edges if available
@@ -296,6 +319,24 @@ func (dcd *DeadCodeDetector) findTerminatorInPredecessors(block *BasicBlock) (De
 	}
 
 	return "", SeverityLevelWarning
+}
+
+// blockTerminatorReason returns the reason matching the terminator statement
+// the block contains, or "" if it contains none
+func (dcd *DeadCodeDetector) blockTerminatorReason(block *BasicBlock) DeadCodeReason {
+	if dcd.blockContainsReturn(block) {
+		return ReasonUnreachableAfterReturn
+	}
+	if dcd.blockContainsBreak(block) {
+		return ReasonUnreachableAfterBreak
+	}
+	if dcd.blockContainsContinue(block) {
+		return ReasonUnreachableAfterContinue
+	}
+	if dcd.blockContainsRaise(block) {
+		return ReasonUnreachableAfterRaise
+	}
+	return ""
 }
 
 // blockContainsReturn checks if a block contains a return statement
